@@ -810,9 +810,9 @@ fn sha1_vector_body(v: &Sha1Vector, rec: &mut Rec) -> CaseResult {
 // ---------------------------------------------------------------------------------------------
 
 pub fn check() -> Option<Check> {
-    let tbs = prop("tbs_bytes", 40_000, 1_000_000, |_| tbs_case(), tbs_body);
-    let third = prop("third_party_signs", 4_000, 100_000, crypto_case, third_party_signs_body);
-    let own = prop("hickory_signs", 4_000, 100_000, crypto_case, hickory_signs_body);
+    let tbs = prop("tbs_bytes", 160_000, 1_000_000, |_| tbs_case(), tbs_body);
+    let third = prop("third_party_signs", 16_000, 100_000, crypto_case, third_party_signs_body);
+    let own = prop("hickory_signs", 16_000, 100_000, crypto_case, hickory_signs_body);
     let fixed = enumerate(
         "fixed_sets_all_orders",
         |_env: &Env| {
